@@ -70,6 +70,27 @@ def run(ctx):
         ctx.oblige(f'extraction ({d},{b}) succeeds and is deterministic', ok)
         if not ok and not sweep_bad:
             sweep_bad = (d, b, x[:200])
+    # translation validation proper: the committed model, flattened (gadgets inlined, wires
+    # renumbered), is the API-call trace of the current Go circuits and of the proved Lean model
+    common.go_build(['trace'])
+    common.lake_build(['driver'])
+    flat_bad = None
+    import hashlib as _h
+    for circ, defname in (('Insertion', 'InsertionMbuCircuit_4_30_4_4_30'), ('Deletion', 'DeletionMbuCircuit_4_4_30_4_4_30')):
+        fl = common.run(['python3', os.path.join(common.ROOT, 'tools', 'flatten_extraction.py'), os.path.join(FV, 'FormalVerification.lean'), defname], env=dict(os.environ))
+        a, b = common.trace_pair([circ, str(common.BN254), '30', '4'])
+        programs += 1
+        ok = fl.returncode == 0 and b.returncode == 0 and fl.stdout == b.stdout == a.stdout
+        ctx.oblige(f'flatten(committed {defname}) = recorder trace of the Go circuit = trace of the proved Lean model', ok,
+                   f'{fl.stdout.count(chr(10))} lines, sha256 {_h.sha256(fl.stdout.encode()).hexdigest()[:16]}' if ok else (fl.stderr[-200:] or 'texts differ'))
+        if not ok and not flat_bad:
+            if fl.returncode != 0:
+                flat_bad = {'circuit': circ, 'flattener_error': fl.stderr[-500:]}
+            else:
+                other = b.stdout if fl.stdout != b.stdout else a.stdout
+                which = 'go-recorder' if fl.stdout != b.stdout else 'lean-model'
+                d = first_diff(fl.stdout, other)
+                flat_bad = {'circuit': circ, 'against': which, 'first_difference': {'line': d['line'], 'committed_model': d['committed'], which: d['fresh']}}
     # identifier facts, decided by Lean over regenerated lists
     defined, referenced = regen_extract_facts()
     facts_err = None
@@ -95,6 +116,9 @@ def run(ctx):
     if sweep_bad:
         replay = common.write_replay(ctx, 'sweep', {'kind': 'sweep', 'depth': sweep_bad[0], 'batch': sweep_bad[1], 'output': sweep_bad[2]})
         raise Violation(f'extraction fails or is unstable at ({sweep_bad[0]},{sweep_bad[1]})', replay)
+    if flat_bad:
+        replay = common.write_replay(ctx, 'flatten', {'kind': 'flatten', **flat_bad})
+        raise Violation('the committed model, flattened, is not the trace of the current circuit: ' + json.dumps(flat_bad)[:400], replay)
     if missing:
         replay = common.write_replay(ctx, 'ident', {'kind': 'ident', 'missing': missing})
         raise Violation(f'proof files refer to definitions missing from the model: {missing[:5]}', replay)
